@@ -9,8 +9,8 @@ from harness.impl import base
 from tangermeme.tools import fimo as F
 
 
-def table_of(log_pwm, bin_size):
-    s, t = F._pwm_to_mapping(numpy.ascontiguousarray(log_pwm, dtype=numpy.float64), float(bin_size))
+def table_of(log_pwm, bin_size, dtype=numpy.float64):
+    s, t = F._pwm_to_mapping(numpy.ascontiguousarray(log_pwm, dtype=dtype), float(bin_size))
     return int(s), [float(v) for v in t]
 
 
@@ -125,8 +125,16 @@ def handler(case):
                 # the same motif again in the same process with another pseudocount, then the first one again (a history of calls)
                 eps2 = rng.choice([e for e in (1e-6, 1e-4, 1e-3, 1e-2, 0.1) if e != eps])
                 todo += [(pwm, eps2, bin_size, 1), (pwm, eps, bin_size, 2)]
-        for pwm, eps, bin_size, step in todo:
+        for ti, (pwm, eps, bin_size, step) in enumerate(todo):
             logp = numpy.log2(pwm + eps) - math.log2(0.25)
+            f32 = False
+            if ti % 3 == 1:
+                # motifs given in single precision (torch's default dtype): the log-odds are float32 values; the table must still be
+                # the exact tail of THEIR discretisation, to double accuracy.  Skipped when a quotient sits near a rounding boundary.
+                l32 = (numpy.log2(pwm.astype(numpy.float32) + numpy.float32(eps)) - numpy.float32(math.log2(0.25))).astype(numpy.float32)
+                q = l32.astype(numpy.float64) / bin_size
+                if numpy.abs(numpy.abs(q - numpy.floor(q)) - 0.5).min() > 1e-3:
+                    logp, f32 = l32.astype(numpy.float64), True
             I = numpy.round(logp / bin_size).astype(numpy.int64)
             colmin = I.min(axis=0)
             Ms = (I - colmin[None, :]).tolist()
@@ -134,17 +142,17 @@ def handler(case):
             if R > 4000:
                 continue
             try:
-                smallest, table = table_of(logp, bin_size)
+                smallest, table = table_of(logp, bin_size, numpy.float32 if f32 else numpy.float64)
                 st = "ok"
             except Exception as e:
                 smallest, table, st = 0, [], "err"
             hits = None
-            if st == "ok" and pwm.shape[1] <= 12:
+            if st == "ok" and pwm.shape[1] <= 12 and not f32:
                 try:
                     hits = fimo_hits(pwm, eps, bin_size, rng)
                 except Exception as e:
                     hits = "err %s" % type(e).__name__
-            outs.append(dict(M=Ms, R=R, shift=int(colmin.sum()), w=int(I.shape[1]), eps=eps, bin_size=bin_size, st=st, hits=hits, step=step,
+            outs.append(dict(M=Ms, R=R, shift=int(colmin.sum()), w=int(I.shape[1]), eps=eps, bin_size=bin_size, st=st, hits=hits, step=step, f32=f32,
                              smallest=smallest, table=[("nan" if t != t else ("-inf" if t == float("-inf") else t)) for t in table],
                              pwm=[[round(v, 6) for v in row] for row in pwm.tolist()]))
         return {"cases": outs}
